@@ -131,6 +131,22 @@ def check(ctx):
             ctx.ob("R1", f"word {kw!r} -> {typ}", f"a name that is the word `{kw}` is quoted", f"\\b{kw}\\b" in pattern, key=f"unquoted-word|{kw}", where=f"{CQ}:_PATTERN")
     unexplained = sorted(excl - covered_types - NOT_A_CHARACTER)
     ctx.ob("R1", f"{BP}:_attach_subproc_arg_part_rules", "every excluded token type is traced to a spelling (or is not producible by a file-name character)", not unexplained, key="excluded-type-without-spelling|" + ",".join(unexplained), detail=str(unexplained))
+    # the category class `\s` means Unicode whitespace only if the pattern is compiled in Unicode mode, the mode the
+    # tokenizer compiles its own patterns in (re.UNICODE): under re.ASCII / (?a) a name ending in NBSP, U+2003,
+    # U+3000, \x1c ... is not quoted although the tokenizer does not read that character as part of a word
+    pv = cq.assign_value("_PATTERN")
+    flag_exprs = list(pv.args[1:]) + [k.value for k in pv.keywords if k.arg == "flags"]
+    narrowed = [unparse(f) for f in flag_exprs if any(isinstance(x, ast.Attribute) and x.attr in ("ASCII", "A") for x in ast.walk(f)) or any(isinstance(x, ast.Name) and x.id in ("ASCII", "A") for x in ast.walk(f))]
+    unknown = [unparse(f) for f in flag_exprs if not all(isinstance(x, (ast.Attribute, ast.Name, ast.BinOp, ast.BitOr, ast.Load, ast.Constant)) for x in ast.walk(f))]
+    if unknown:
+        raise AnalysisError(f"{CQ}: cannot read the compile flags of _PATTERN: {unknown}")
+    inline_a = bool(__import__("re").match(r"\(\?[a-zA-Z]*a", pattern))
+    tk_mod = ctx.repo.module("xonsh/parsers/tokenize.py")
+    tk_unicode = any(isinstance(c, ast.Call) and call_name(c) == "re.compile" and any("UNICODE" in unparse(a) for a in c.args[1:]) for c in ast.walk(tk_mod.func("_compile")))
+    if not tk_unicode:
+        raise AnalysisError("xonsh/parsers/tokenize.py:_compile no longer compiles the token patterns with re.UNICODE: the sibling comparison has lost its reference")
+    if has_space_class:
+        ctx.ob("R1", f"{CQ}:_PATTERN", "the whitespace class of the quoting trigger is the Unicode one, as in the tokenizer's patterns (no re.ASCII / (?a) narrowing it to six ASCII characters)", not narrowed and not inline_a, key="pattern|ascii-only-classes", where=loc(pv), detail=str(narrowed) if narrowed else None)
     # the helper applies the pattern with search (anywhere in the name)
     nq = cq.func("name_needs_quotes")
     ok = any(call_name(c) == "_PATTERN.search" for c in calls_in(nq))
